@@ -374,6 +374,9 @@ func deepSig(sb *strings.Builder, v reflect.Value, o sigOpts, depth int, seen ma
 			if ft.Name == "stack" && t.Name() == "DecodeFailure" {
 				continue // goroutine stack text
 			}
+			if o.exportedOnly && rawDuplicateField(t.Name(), ft.Name) {
+				continue
+			}
 			sb.WriteString(ft.Name)
 			sb.WriteString(":")
 			deepSig(sb, v.Field(i), o, depth+1, seen)
@@ -629,4 +632,13 @@ func monConc(c *ctx, f *firstDec, data []byte) {
 	}
 	c.stat("c02:conc-checked")
 	c.nontrivial = true
+}
+
+// rawDuplicateField: fields excluded from the C06 field comparison because they are raw
+// wire-form duplicates of typed fields of the same struct, not independent field values
+// (documented in notes/all.md).  DNSResourceRecord.Data/DataLength hold the RDATA exactly as
+// it was on the wire, including name-compression pointers into the ORIGINAL message; the
+// typed fields (IP, NS, CNAME, PTR, SOA, MX, SRV, TXTs, OPT, URI) carry the values and are compared.
+func rawDuplicateField(typ, field string) bool {
+	return typ == "DNSResourceRecord" && (field == "Data" || field == "DataLength")
 }
